@@ -66,9 +66,24 @@ let () = iter_lines (fun line ->
     let kind = String.sub line 0 sp in
     let rest = String.sub line (sp + 1) (String.length line - sp - 1) in
     if kind = "hist" then begin
-      let ops = List.filter_map parse_op (String.split_on_char ';' rest) in
+      (* `wf x z len seed now k short`: WriteSector on a medium whose k-th I/O call fails; the model is
+         Model.C14.write_sector_fail (proved equal to the interpretation of the translated WriteSector on the failing
+         medium for instances, Proofs/C14_skel_fail.v) *)
       let s = ref create in
-      let out = List.map (fun o -> let (s', b) = step !s o in s := s'; obs_str s' b) ops in
+      let run_one (txt : string) : string option =
+        match split_ws txt with
+        | ["wf"; x; z; len; seed; now; k; short] ->
+            let d = payload (int_of_string seed) (int_of_string len) in
+            (match Some (write_sector_fail (nat_of_int (int_of_string k)) (n_of_dec short) !s (n_of_dec x) (n_of_dec z) d (n_of_dec now)) with
+             | Some ((s', ws), r) ->
+                 s := s';
+                 Some (Printf.sprintf "W %s %s" (match r with WFOk -> "ok" | WFTooLarge -> "toolarge" | WFErr -> "err" | WFOutside -> "outside") (show_writes ws))
+             | None -> Some "W stuck")
+        | _ ->
+            (match parse_op txt with
+             | Some o -> let (s', b) = step !s o in s := s'; Some (obs_str s' b)
+             | None -> None) in
+      let out = List.filter_map run_one (String.split_on_char ';' rest) in
       let f = img !s in
       let size = fsize f in
       (* hash the whole file content sector by sector (a single huge range costs O(writes x size)) *)
